@@ -23,7 +23,7 @@ if wave > 1 and have:
                   "boundary of a counter or index that is only reached after a long or oddly shaped history; a numerically special but legal value; "
                   "state that survives between calls; a change in one function that is only wrong for the way ANOTHER function of the library calls it.\n\n")
     if wave >= 4:
-        avoid += ("Nine changes per property exist already, so be inventive: prefer (a) code paths selected by NON-DEFAULT arguments or by the less common "
+        avoid += ("Many changes per property exist already (listed above), so be inventive: prefer (a) code paths selected by NON-DEFAULT arguments or by the less common "
                   "class / wrapper / variant among those the property quantifies over; (b) helper functions shared by several routines where the change is "
                   "right for most callers and wrong for one; (c) effects that depend on the dtype, number type, shape (batch of one, extra leading axis, "
                   "zero-length) or magnitude (very small / very large but finite) of legal inputs; (d) an object used a second time (after pickling / "
